@@ -1,0 +1,36 @@
+//go:build verif
+
+package asn1
+
+// Thin exported wrappers over unexported functions, used by the C19 property
+// check (/verif/harness/c19) to exercise the tag/length header codec and the
+// OBJECT IDENTIFIER codec directly, without having to supply multi-megabyte
+// bodies and without the reflection overhead of Unmarshal/Marshal.
+
+// VerifParseTagAndLength exposes parseTagAndLength (header at offset 0).
+func VerifParseTagAndLength(b []byte) (class, tag, length int, isCompound bool, offset int, err error) {
+	t, off, err := parseTagAndLength(b, 0)
+	return t.class, t.tag, t.length, t.isCompound, off, err
+}
+
+// VerifAppendTagAndLength exposes appendTagAndLength.
+func VerifAppendTagAndLength(dst []byte, class, tag, length int, isCompound bool) []byte {
+	return appendTagAndLength(dst, tagAndLength{class, tag, length, isCompound})
+}
+
+// VerifParseObjectIdentifier exposes parseObjectIdentifier (content octets).
+func VerifParseObjectIdentifier(b []byte) (ObjectIdentifier, error) {
+	return parseObjectIdentifier(b)
+}
+
+// VerifAppendObjectIdentifier exposes makeObjectIdentifier + Encode (content octets).
+func VerifAppendObjectIdentifier(dst []byte, oid ObjectIdentifier) ([]byte, error) {
+	e, err := makeObjectIdentifier(oid)
+	if err != nil {
+		return dst, err
+	}
+	n := e.Len()
+	out := append(dst, make([]byte, n)...)
+	e.Encode(out[len(dst):])
+	return out, nil
+}
